@@ -6,7 +6,9 @@
 (***************************************************************************)
 EXTENDS Combinators, Universes, Json
 
-CONSTANT MaxLen
+CONSTANTS MaxLen,   \* BFS bound (Group = "bfs")
+          Group     \* "bfs": all sequences up to MaxLen; "pairs": all of length <= 2;
+                    \* "fin3": all triples with run-Finished at exactly one position
 
 R1_ == Retries(0, 1)
 R2_ == Retries(1, 0)
@@ -21,11 +23,25 @@ Alphabet ==
     EvSc("F1", "", "S1", R1_, "StepF", "", 2, "panic"),      \* retried failure
     EvSc("F1", "", "S1", R2_, "StepF", "", 2, "panic"),      \* final failure
     EvSc("F1", "", "S1", R1_, "HookF", "b", 0, ""),
-    EvSc("F1", "", "S1", R1_, "StepP", "", 1, "") }
+    EvSc("F1", "", "S1", R2_, "HookF", "a", 0, ""),
+    EvSc("F1", "", "S1", R1_, "StepP", "", 1, ""),
+    \* the same kinds for a scenario inside a rule
+    EvSc("F1", "R1", "S2", NoRetries, "HookF", "b", 0, ""),
+    EvSc("F1", "R1", "S2", NoRetries, "HookF", "a", 0, ""),
+    EvSc("F1", "R1", "S2", NoRetries, "StepF", "", 2, "panic"),   \* rule background step
+    EvSc("F1", "R1", "S2", NoRetries, "StepF", "", 3, "ambig"),
+    EvSc("F1", "R1", "S2", NoRetries, "StepP", "", 3, ""),
+    EvSc("F1", "", "S1", R1_, "StepF", "", 1, "panic") }          \* feature background step
 
 VARIABLE inp
-Init == inp = <<>>
-Next == Len(inp) < MaxLen /\ \E a \in Alphabet : inp' = Append(inp, a)
+NoFin == Alphabet \ {EvFinished}
+Pairs == {<<>>} \cup {<<a>> : a \in Alphabet} \cup {<<a, b>> : a \in Alphabet, b \in Alphabet}
+Fin3 == {<<EvFinished, a, b>> : a \in NoFin, b \in NoFin} \cup {<<a, EvFinished, b>> : a \in NoFin, b \in NoFin}
+        \cup {<<a, b, EvFinished>> : a \in NoFin, b \in NoFin}
+Init == CASE Group = "bfs" -> inp = <<>>
+          [] Group = "pairs" -> inp \in Pairs
+          [] Group = "fin3" -> inp \in Fin3
+Next == Group = "bfs" /\ Len(inp) < MaxLen /\ \E a \in Alphabet : inp' = Append(inp, a)
 Spec == Init /\ [][Next]_inp
 
 Dump == PrintT(<<"REPLAY", ToJson([universe |-> U, inp |-> inp])>>)
